@@ -1,9 +1,9 @@
 SPECIFICATION Spec
 CONSTANTS
   M = {1, 2}
-  MaxN = 3
+  MaxN = 2
   Delays = {0, 1}
-  Actives = {0, 2}
+  Actives = {0, 1, 2}
   Starts = {2}
   InitBlocks = {1, 3}
   MaxMsgs = 0
@@ -11,5 +11,5 @@ CONSTANTS
   Faults = {"initiate", "next"}
   BadMsgs = {FALSE}
   Prompt = FALSE
-INVARIANTS TypeOK BlockExactInit BlockExactEnd FinishExact NeverEarly InOrder RegisteredIff FailureOutcome FifoNoLoss NotToEarlierState Lockstep LockstepPrompt PromptExact
+INVARIANTS TypeOK BlockExactInit BlockExactEnd FinishExact NeverEarly InOrder RegisteredIff FailureOutcome FifoNoLoss NotToEarlierState Lockstep LockstepPrompt PromptExact DelayProtects InWindowDelivered
 PROPERTIES HandOffDiscipline Monotone
